@@ -154,7 +154,7 @@ func TestVerifReplayC17(t *testing.T) {
 search:
 	for _, server := range []bool{false, true} {
 		for _, kind := range []string{"json", "xml", "binary", "text"} {
-			for _, st := range []int{200, 201, 404, 500} {
+			for _, st := range []int{200, 201, 204, 304, 404, 500} {
 				for o := range c17Opts {
 					nv := len(c17Vals)
 					if kind == "binary" || kind == "text" {
